@@ -1413,7 +1413,7 @@ class _TextReader:
         token = self.tok.get()
         what = token.value
         if what == "id":
-            self.id = self.tok.get_int()
+            self.id = self.tok.get_uint16()
         elif what == "flags":
             while True:
                 token = self.tok.get()
@@ -1422,7 +1422,7 @@ class _TextReader:
                     break
                 self.flags = self.flags | dns.flags.from_text(token.value)
         elif what == "edns":
-            self.edns = self.tok.get_int()
+            self.edns = self.tok.get_uint8()
             self.ednsflags = self.ednsflags | (self.edns << 16)
         elif what == "eflags":
             if self.edns < 0:
@@ -1434,7 +1434,7 @@ class _TextReader:
                     break
                 self.ednsflags = self.ednsflags | dns.flags.edns_from_text(token.value)
         elif what == "payload":
-            self.payload = self.tok.get_int()
+            self.payload = self.tok.get_uint16()
             if self.edns < 0:
                 self.edns = 0
         elif what == "opcode":
@@ -1513,6 +1513,8 @@ class _TextReader:
             raise dns.exception.SyntaxError
         except Exception:
             ttl = 0
+        if ttl < 0 or ttl > dns.ttl.MAX_TTL:
+            raise dns.exception.SyntaxError("TTL out of range")
         # Class
         try:
             rdclass = dns.rdataclass.from_text(token.value)
@@ -1612,7 +1614,11 @@ class _TextReader:
                 self.tok.get_eol()
                 continue
             self.tok.unget(token)
-            line_method(section_number)
+            try:
+                line_method(section_number)
+            except ValueError as e:
+                # An opcode, rcode, or type number that is out of range.
+                raise dns.exception.SyntaxError(str(e)) from e
         if not self.message:
             self.message = self._make_message()
         return self.message
